@@ -247,7 +247,7 @@ func (propC03) Draw(rt *rapid.T, w *WorldDesc, mode string) *Plan {
 				op.Notes = append(op.Notes, "client=openapi")
 			}
 			op.ReqChunks = drawChunks(rt, fmt.Sprintf("op%d.reqChunks", id))
-			op.DeadlineMs = 60000
+			op.DeadlineMs = 3600000 // virtual time is free: a slowly delivered request must not run into the caller's own deadline
 			p.Ops = append(p.Ops, op)
 			id++
 		}
@@ -262,7 +262,7 @@ func (propC03) Draw(rt *rapid.T, w *WorldDesc, mode string) *Plan {
 			op.ReqBin, op.RespBin = mustMarshal(req2), mustMarshal(resp)
 			op.ReqJSON = jsonOf(req2)
 			op.ReqChunks = drawChunks(rt, fmt.Sprintf("op%d.reqChunks", id))
-			op.DeadlineMs = 60000
+			op.DeadlineMs = 3600000 // virtual time is free: a slowly delivered request must not run into the caller's own deadline
 			p.Ops = append(p.Ops, op)
 			id++
 		}
@@ -286,7 +286,7 @@ func (propC03) Draw(rt *rapid.T, w *WorldDesc, mode string) *Plan {
 				op := &Op{ID: id, RPC: md.Key, Client: "raw", Server: server, App: AppBehaviour{Kind: "respond"}, Notes: []string{"conflict=1"}}
 				op.Raw = &RawReq{Verb: rpc.Verb, Target: target, Headers: append([][2]string{{"Content-Type", "application/json"}}, hdrs...), Body: body}
 				op.ReqBin, op.RespBin = mustMarshal(req), mustMarshal(resp)
-				op.DeadlineMs = 60000
+				op.DeadlineMs = 3600000 // virtual time is free: a slowly delivered request must not run into the caller's own deadline
 				p.Ops = append(p.Ops, op)
 				id++
 			}
